@@ -90,7 +90,11 @@ extern "C" void h_decompress_code(void) {
   g_may_throw = false; g_ncodes = 0;
   uint8_t in[3]; vf_havoc(in, 3);
   HuffLZ d(BitStreamReader(in, 3));
+#ifdef PATTERN
+  for (unsigned i = 0; i < 4096; i++) d.m_DecompressBuffer[i] = (char)(i * 7 + (i >> 8) + 3);   // concrete, position-revealing window contents
+#else
   vf_havoc(d.m_DecompressBuffer, 4096);
+#endif
 #ifdef WIDX
   uint64_t w = WIDX;                       // write index concrete per query (the window contents and the distance stay symbolic)
 #else
